@@ -1522,7 +1522,9 @@ fn sim_enter(fd: i32, to_submit: u32, min_complete: u32, flags: u32, arg: usize)
     };
 
     // Wake messages need two rings; collect them first.
+    crate::sched::sys_point(crate::sched::SYS, 1);
     let mut wake_targets: Vec<(u64, i32, u64, u32)> = Vec::new();
+    let mut must_block = false;
     let ret = with_sim(|sim| {
         let Sim { rings, events, .. } = sim;
         let ring = rings.get_mut(&fd).unwrap();
@@ -1572,8 +1574,14 @@ fn sim_enter(fd: i32, to_submit: u32, min_complete: u32, flags: u32, arg: usize)
                         (Some(e), _) => -(e as i64),
                         (None, Some(_)) => -(libc::ETIME as i64),
                         (None, None) => {
-                            blocked = true;
-                            -(libc::EINTR as i64)
+                            if crate::sched::is_worker() {
+                                // really block: parked by the scheduler below
+                                must_block = true;
+                                0
+                            } else {
+                                blocked = true;
+                                -(libc::EINTR as i64)
+                            }
                         }
                     };
                 }
@@ -1598,6 +1606,20 @@ fn sim_enter(fd: i32, to_submit: u32, min_complete: u32, flags: u32, arg: usize)
     });
     for (seq, tfd, ud, len) in wake_targets {
         deliver_msg(seq, tfd, ud, len);
+    }
+    if must_block {
+        // Blocked in the kernel until a completion is available.
+        loop {
+            let ready = with_sim(|sim| {
+                let ring = sim.rings.get_mut(&fd).unwrap();
+                ring.flush_overflow();
+                ring.cq_count() >= min_complete.min(ring.cq_entries).max(1)
+            });
+            if ready {
+                break;
+            }
+            crate::sched::sys_point(crate::sched::SYS_BLOCKED, 1);
+        }
     }
     if ret < 0 { errno_ret(-ret as i32) } else { ret }
 }
@@ -1631,6 +1653,7 @@ fn deliver_msg(seq: u64, target_fd: i32, ud: u64, len: u32) {
 }
 
 fn sim_register(fd: i32, op: u32, arg: usize, nr: u32) -> i64 {
+    crate::sched::sys_point(crate::sched::SYS, 2);
     if fd == -1 {
         if op == REGISTER_SEND_MSG_RING {
             let sqe = unsafe { *(arg as *const Sqe) };
